@@ -26,6 +26,8 @@ def error_summary(error, with_message=True):
     from cutplace import errors as cutplace_errors
 
     result = {"class": type(error).__name__, "is_data_error": isinstance(error, cutplace_errors.DataError)}
+    if isinstance(error, cutplace_errors.DataFormatError):
+        result["is_format_error"] = True
     location = getattr(error, "location", None)
     result["loc"] = location_summary(location)
     see_also = getattr(error, "see_also_location", None)
